@@ -77,6 +77,92 @@ def run_extract(rule_keys, root=0):
     return True
 
 
+# ------------------------------------------------------------------ (b) universes recorded by real searches
+import harness.c01 as c01  # noqa: E402
+import harness.c02 as c02  # noqa: E402
+import harness.e2e as e2e  # noqa: E402
+from harness.e2e import Bad  # noqa: E402
+
+
+def assert_extraction(ctx):
+    if ctx.spec is None:
+        # C11 speaks about what is extracted *when* a specification is reported; without reverse rules the universe may
+        # contain none (e.g. a class only reachable through the reverse of a symmetry rule)
+        core.observe("runs in which the forest database reports no specification")
+        return
+    s = ctx.searcher
+    db = s.ruledb
+    keys = list(db.table_method._rules)
+    ex = ForestRuleExtractor(s.start_label, db, s.classdb, s.strategy_pack)
+    ex.check()
+    need = list(ex.needed_rules)
+    root = s.start_label
+    for r in need:
+        if r not in keys:
+            raise Bad("extracted key %r was never inserted" % (r,))
+    if not pump(need, root):
+        raise Bad("extracted rules are not productive for the start class")
+    lhs = [r.parent for r in need]
+    if len(set(lhs)) != len(lhs):
+        raise Bad("two rules for one class in the extracted set")
+    for i in range(len(need)):
+        if pump(need[:i] + need[i + 1:], root):
+            raise Bad("extracted set is not minimal: %r can be removed" % (need[i],))
+    if any(r.bucket == RuleBucket.REVERSE for r in need):
+        core.observe("extractions using a reverse rule")
+        if pump([r for r in keys if r.bucket != RuleBucket.REVERSE], root):
+            raise Bad("a reverse rule is used although the universe without reverse rules is productive")
+    for rk in need:
+        try:
+            rule = ex._find_rule(rk)
+        except RuntimeError as e:
+            raise Bad("extracted key %r cannot be turned back into a rule of the pack: %s" % (rk, str(e)[:80]))
+        back = rule.forest_key(s.classdb.get_label, s.classdb.is_empty)
+        if back != rk:
+            raise Bad("key %r was turned into a rule whose key is %r" % (rk, back))
+    c01.assert_counts(ctx, ctx.spec, n_max=5)
+    c02.assert_valid(ctx, ctx.spec)
+    core.observe("extractions checked")
+
+
+ASSERT = assert_extraction
+PREPARE = None
+
+# >>> e2e wrappers
+# ---- end-to-end wrappers (same text in every module that uses harness/e2e.py; ASSERT / PREPARE are module globals)
+def check_opt(t: int) -> bool:
+    """
+    pre: e2e.tin(t)
+    post: _
+    """
+    return core.final(e2e.body_opt(t, ASSERT, PREPARE))
+
+
+def check_sched(t: int, j: int) -> bool:
+    """
+    pre: e2e.tin(t) and 0 <= j <= e2e.NJ
+    post: _
+    """
+    return core.final(e2e.body_sched(t, j, ASSERT, PREPARE))
+
+
+def check_sched2(t: int, j0: int, j1: int) -> bool:
+    """
+    pre: e2e.tin(t) and 0 <= j0 < j1 <= e2e.NJ
+    post: _
+    """
+    return core.final(e2e.body_sched2(t, j0, j1, ASSERT, PREPARE))
+
+
+def check_rng(t: int, d0: int, d1: int, d2: int) -> bool:
+    """
+    pre: e2e.tin(t) and 0 <= d0 <= 2 and 0 <= d1 <= 2 and 0 <= d2 <= 2
+    post: _
+    """
+    return core.final(e2e.body_rng(t, (d0, d1, d2), ASSERT, PREPARE))
+# <<< e2e wrappers
+
+
 def decode(shape, vals):
     """vals: shifts (one per child, index into SHIFTS) then buckets (one per rule, index into BUCKETS[arity])"""
     rules = shape["rules"]
@@ -115,6 +201,9 @@ DOMS = []
 
 def on_shape(shape):
     global DOMS
+    if "db" in shape:
+        e2e.on_shape(shape)
+        return
     DOMS = domains(shape)
 
 
@@ -265,10 +354,16 @@ def groups(tier):
             rules = [sk[j] for j in order]
             add("%s-o%s" % (name, "".join(map(str, order))),
                 {"rules": [[p, list(ch)] for p, ch, _ in rules], "shifts": [s for _, _, sh in rules for s in sh], "sdom": []})
+    # (b) universes recorded by real searches, with and without reverse rules
+    opts = ["plain", "inferral", "symmetry", "factory", "factory2", "finite", "finite-ev", "k", "ku", "two"]
+    if tier == "thorough":
+        opts += ["inferral-factory-finite", "two-k", "kk", "ku-factory"]
+    gs += e2e.std_groups(tier, dbs=("forest", "forest-noreverse"), opts=opts, sched=(tier == "thorough"), rng=False, S3=(tier == "thorough"))
     return gs
 
 
 def selftest(tier):
+    e2e.selftest_universe(tier)
     # the skeletons pump with their typed-in shifts
     for name, sk in SKELETONS.items():
         assert lfp(sk, [0], 2).get(0, 0) is None, name
